@@ -1,4 +1,58 @@
-"""C30, C31 -- family wswriter (work in progress docstring, completed below)."""
+"""C30, C31 -- family wswriter: the WebSocket WRITE path, the opening handshake and the close handling of
+/repo/internal/websocket + /repo/handler_websocket.go (the frame READER is family wsreader, C29).
+
+C30  spec/WsWriter/WsWriter.tla models NextWriter / Write / WriteString / ReadFrom / Close / WriteMessage (incl. the
+     server fast path) / WritePreparedMessage / WriteControl with the real byte counts relative to the write buffer,
+     emits abstract frames [op, fin, rsv1, masked, len]; the property is an independent RFC 6455 / RFC 7692 decoder
+     (`Dec`) that must accept the wire and yield exactly the written messages.  Exhaustive TLC (online monitor,
+     histories out of the VIEW), then TLC -simulate scripts (WsWriterSim, history invariant Roundtrip checked on every
+     state) are replayed into a REAL Conn over an in-memory net.Conn (harness/wswriter mode `write`): wire bytes parsed
+     by the harness's own frame parser, validated against the RFC by its own stream validator, reassembled (and
+     inflated) and compared byte for byte with what was written, then read back by a real Conn of the opposite role.
+     Verdict sources: validator (`wire:<rule>`), independent reassembly (`roundtrip-parser:*`), real reader
+     (`roundtrip-reader:*`).  A different but valid fragmentation / a different error result than the model's is drift.
+
+C31  spec/WsHandshake/WsHandshake.tla: decision tables (upgrade request classes x configuration -> response, close
+     code validity 0..5000 + 65535, close reason UTF-8 classes, websocketTransport.Close(code, len(reason))) with the
+     RFC property stated separately; spec/WsHandshake/WsCloseReg.tla: the first-close-wins register as a state machine
+     with a ghost "first close frame observed".  Rows / scripts are dumped by TLC and replayed (modes `handshake`:
+     Upgrader.Upgrade with an in-memory hijackable writer AND centrifuge.NewWebsocketHandler behind a real net/http
+     server over loopback TCP; `closecodes`: the predicate through a shim and real close frames into server and client
+     Conns; `transportclose`: the real websocketTransport.Close, the frame parsed by the harness and by a real client
+     Conn; `closereg`: Conn.CloseCode() after every step).
+
+Known deviations of the unchanged tree (C31, genuine, reported to the lead -- signatures):
+  handshake:no-response:key:b64-17bytes, handshake:no-response:key:b64-18bytes
+      Sec-WebSocket-Key of 24 base64 characters with fewer than two '=' (decodes to 17/18 bytes): isValidChallengeKey
+      decodes into a 16 byte buffer, encoding/base64 panics (index out of range); net/http recovers, the client gets
+      no HTTP response at all instead of 400 (RFC 6455 4.2.1 last paragraph / 4.2.2 item 1).
+  handshake:reject-valid:connection=keep-alive,, Upgrade
+      a Connection header with a null list element is refused with 400 although it contains the Upgrade token
+      (RFC 2616 2.1 #rule / RFC 7230 7: recipients MUST ignore empty list elements) -- low severity.
+
+Mutation testing (FRAMEWORK rule 3), scratch worktrees /tmp/wswriter-m*, each run through `VERIF_REPO=... ./check`:
+ C30 (all caught, exit 1):
+  m1 messageWriter.Write large-write path flushFrame(false,p) -> flushFrame(true,p)   roundtrip-parser:* / wire:*
+  m2 flushFrame: `w.compress = false` removed (RSV1 stays on continuations)           wire:rsv1-on-continuation
+  m3 WriteControl: client mask bit dropped (`b1 |= maskBit` removed)                  wire:unparsable / client-frame-not-masked
+  m4 flushFrame: `w.frameType = continuationFrame` removed                            wire:data-frame-inside-fragmented-message
+  m5 WriteControl limit 125 -> 126                                                    wire:control-longer-than-125 / unparsable
+  m6 PreparedMessage.frame: cache lookup key ignores `compress`                       wire:rsv1-without-extension
+  m7 flushFrame: FIN also set on a non-final fragment that exactly fills the buffer   wire:continuation-without-message
+  (a first version of m6 that made prepared messages never compress, and an ncopy off-by-one that only changes the
+   fragment sizes, are -- correctly -- reported as drift, exit 2: the property still holds)
+ C31 (all caught, exit 1):
+  n1 computeAcceptKey/encodeAcceptKey hash GUID+key instead of key+GUID                handshake:accept-key
+  n2 tokenListContainsValue compares case-sensitively                                  handshake:reject-valid:connection=upgrade ...
+  n3 selectSubprotocol returns the server's first protocol when nothing matches        handshake:subprotocol-not-offered
+  n4 compression negotiated whenever enabled (offer not checked)                       handshake:extension-not-offered
+  n5 validReceivedCloseCodes: 1005 -> true                                             closecode:accept-forbidden:1005
+  n6 WriteControl limit 125 -> 123 (close reason limit 123 -> 121)                     tclose:no-frame:len=122
+  n7 recordCloseCode: CompareAndSwap(0, v) -> Store(v)                                 closereg:*
+  n8 checkSameOrigin / checkSameHost: compare only the host prefix (HasPrefix)         handshake:accept-invalid:origin:*
+"""
+import os
+
 from lib import vf
 
 
@@ -12,22 +66,96 @@ def _scripts(behs):
 
 def c30(c):
     quick = c.tier == 'quick'
-    r = c.tlc_exhaustive('WsWriter', 'WsWriter', 'quick.cfg' if quick else 'thorough.cfg', workers=8, timeout=1500)
+    # 1. design: exhaustive, online decoder monitor, histories outside the VIEW
+    r = c.tlc_exhaustive('WsWriter', 'WsWriter', 'quick.cfg' if quick else 'thorough.cfg', workers=8, timeout=2400)
     c.log('TLC exhaustive: %d distinct / %d generated states, depth %d' % (r['distinct'], r['states'], r['depth']))
+    if not quick:
+        # the recursive decoder over the complete histories, small exhaustive configuration
+        r2 = c.tlc_exhaustive('WsWriter', 'WsWriter', 'hist.cfg', workers=8, timeout=2400)
+        c.log('TLC exhaustive (history invariant): %d distinct states' % r2['distinct'])
     binp = c.go_build('wswriter')
-    s = c.tlc('WsWriter', 'WsWriterSim', 'sim.cfg' if quick else 'simbig.cfg', simulate=500 if quick else 4000, depth=15, timeout=1500)
-    if not s['ok']:
-        raise vf.Inconclusive('simulation failed: %s' % s['out'][-2000:])
-    behs = c.behaviours(s)
-    c.log('TLC simulate: %d scripts' % len(behs))
-    res = c.harness(binp, 'write', _scripts(behs), timeout=900)
-    c.absorb(res)
-    c.cov['traces_validated_against_impl'] += res['completed']
-    c.cov['evaluations'] += res['executed']
-    c.cov['distinct_nontrivial'] += res['nontrivial']
-    c.cov['samples'] += res['samples'][:2]
-    c.cov['replay_counters'] = res['counters']
+    # 2. spec -> code: simulated scripts (every state checked against Roundtrip by TLC) replayed into a real Conn
+    runs = [('sim.cfg', 400)] if quick else [('sim.cfg', 3000), ('simbig.cfg', 3000)]
+    ops = 0
+    for cfg, n in runs:
+        s = c.tlc('WsWriter', 'WsWriterSim', cfg, simulate=n, depth=15, timeout=2400)
+        if not s['ok']:
+            raise vf.Inconclusive('simulation %s failed (model-level): %s' % (cfg, s['out'][-3000:]))
+        behs = c.behaviours(s)
+        c.log('TLC simulate %s: %d scripts' % (cfg, len(behs)))
+        scripts = _scripts(behs)
+        ops += sum(len(x['steps']) - 1 for x in scripts)
+        res = c.harness(binp, 'write', scripts, timeout=1800)
+        c.absorb(res)
+        c.cov['traces_validated_against_impl'] += res['completed']
+        c.cov['evaluations'] += res['executed']
+        c.cov['distinct_nontrivial'] += res['nontrivial']
+        c.cov['samples'] += (res['samples'] or [])[:2]
+        c.cov.setdefault('replay_counters', {}).update({cfg + ':' + k: v for k, v in res['counters'].items()})
+    c.cov['api_calls_replayed'] = ops
+    c.cov['rule'] = ('scripts: TLC -simulate of WsWriterSim (operation by slot, arguments by state hash), 14 API calls each, write buffer sizes '
+                     '16/130/1024 (quick) plus 125/126/4096/65535/65536 (thorough), chunk sizes 0,1,B-1,B,B+1,2B,2B+1, the large-write threshold '
+                     '2*(B+14) and +1, 125/126/127 and (thorough) 65535/65536/65537; non-trivial = script whose wire contains a fragmented '
+                     'message or a control frame between fragments, distinct by operation list and configuration')
+    c.assumptions += ['legal API use: one writer at a time (NextWriter/WriteMessage implicitly close an open writer, modelled); WritePreparedMessage only between messages',
+                      'compressed messages: frame count and lengths depend on DEFLATE and are not modelled (structure, RSV1 placement and inflated bytes are checked)',
+                      'network write errors / deadlines are not modelled (only the sticky ErrCloseSent after a Close frame)',
+                      'masking-key freshness (RFC 6455 5.3) is not checked: a prepared message reuses its key by design',
+                      'UTF-8 validity of text payloads is the application\'s business']
 
 
-CHECKS = {'C30': c30}
-META = {'C30': dict(level='model_checking', text='wip', note='wip', technique='wip')}
+def _rows(c, kinds):
+    r = c.tlc_exhaustive('WsHandshake', 'WsHandshake', 'quick.cfg' if c.tier == 'quick' else 'thorough.cfg', dump=True, workers=4, timeout=2400)
+    rows = c.dump_states(r)
+    return [x for x in rows if x['kind'] in kinds], len(rows)
+
+
+def c31(c):
+    quick = c.tier == 'quick'
+    rows, n = _rows(c, ('upgrade', 'closecode', 'reason', 'tclose'))
+    c.log('TLC: %d table rows, the RFC properties hold on the decision cascades' % n)
+    reg = c.tlc_exhaustive('WsHandshake', 'WsCloseReg', 'reg.cfg' if quick else 'regbig.cfg', dump=True, workers=4, timeout=1200)
+    scripts = [s['hist'] for s in c.dump_states(reg) if s['hist']]
+    c.log('TLC: %d close-register scripts (%d states), register = first observed close frame on all of them' % (len(scripts), reg['distinct']))
+    binp = c.go_build('wswriter')
+    parts = [('handshake', [{'row': x['row'], 'res': x['res']} for x in rows if x['kind'] == 'upgrade']),
+             ('closecodes', [x for x in rows if x['kind'] in ('closecode', 'reason')]),
+             ('transportclose', [x for x in rows if x['kind'] == 'tclose']),
+             ('closereg', scripts)]
+    for mode, inp in parts:
+        res = c.harness(binp, mode, inp, timeout=1800)
+        c.absorb(res)
+        c.log('%s: %d executed, %d completed, %d non-trivial' % (mode, res['executed'], res['completed'], res['nontrivial']))
+        c.cov['traces_validated_against_impl'] += res['completed']
+        c.cov['evaluations'] += res['executed']
+        c.cov['distinct_nontrivial'] += res['nontrivial']
+        c.cov['samples'] += (res['samples'] or [])[:1]
+        c.cov.setdefault('replay_counters', {}).update({mode + ':' + k: v for k, v in res['counters'].items()})
+        c.cov.setdefault('rows', {})[mode] = res['executed']
+    c.cov['exhaustive'] = True
+    c.cov['rule'] = ('upgrade rows: every request in which at most two of method/Connection/Upgrade/Version/Key deviate from a valid request (thorough: the full '
+                     'cross product) x origin classes x CheckOrigin x offered/configured subprotocols x offered extensions x compression, plus HTTP/2 extended '
+                     'CONNECT rows; non-trivial = accepted upgrade; close codes 0..5000 and 65535 (non-trivial = must-accept code); 12 close reason classes; '
+                     'transport close 9 codes x 8 reason lengths (non-trivial = frame written); register scripts of <= 3 (thorough 4) steps (non-trivial = >= 2 steps)')
+    c.assumptions += ['header classes are rendered into one concrete header text each (harness/wswriter/handshake.go render)',
+                      'leniencies of the server that the RFC would let it refuse are not flagged and not in the table: HTTP/1.0 requests, a Sec-WebSocket-Version list such as "13, 8", repeated Sec-WebSocket-Key headers',
+                      'close codes 1012-1014 (registered at IANA after RFC 6455) are "open": the model follows the code (1012, 1013 accepted, 1014 rejected), a difference is drift',
+                      'DisconnectConnectionClosed (3000) sends no close frame by design (the peer is gone); disconnect codes > 65535 do not fit a close frame and are outside the table',
+                      'close frames are only sent through WriteControl (true for centrifuge); Conn.WriteMessage/NextWriter/WritePreparedMessage(CloseMessage) do not record a close code',
+                      'HTTP/2 rows call Upgrader.Upgrade directly with a hand-built request (no real HTTP/2 server)']
+
+
+CHECKS = {'C30': c30, 'C31': c31}
+
+META = {
+    'C30': dict(level='model_checking',
+                text='WsWriter.tla is an implementation-shaped model of the write path (buffer fill and flush rule, first/continuation opcodes, FIN, RSV1, masking, the server large-write and WriteMessage fast paths, prepared messages on their own 4096 byte buffer, control frames, implicit close, the sticky close-sent error) with real byte counts; the property is an independent RFC 6455/RFC 7692 frame-sequence decoder that must accept the wire and return exactly the written messages. TLC checks it exhaustively on bounded scripts and on every state of thousands of simulated scripts, which are then replayed into a real Conn: the wire bytes are parsed and validated by the harness\'s own parser, reassembled/inflated and compared byte for byte, and read back by a real Conn of the opposite role.',
+                note='Bounds: exhaustive 4 API calls, buffers 16/130 (thorough 16/125/130, richer sizes); replay scripts of 14 calls, buffers 16..65536, sizes around B, 2(B+14), 125/126, 4096, 65535/65536. Compressed frame lengths are not modelled. Trusted: TLC, lib/tlaparse.py, the harness parser/validator/comparison code, compress/flate for the independent inflate.',
+                technique='TLA+ spec + TLC exhaustive and simulation; behaviour replay into internal/websocket.Conn; independent wire decoder; real reader round trip',
+                design_ref='DESIGN.md 4.3, 8 (C30)'),
+    'C31': dict(level='model_checking',
+                text='WsHandshake.tla states the upgrade decision cascade of Upgrader.Upgrade, the close-code and close-reason validity tables and websocketTransport.Close as tables with the RFC 6455 (4.2.1, 4.2.2, 4.4, 7.4, 5.5) properties stated separately and checked by TLC on every row; WsCloseReg.tla is the first-close-wins register with a ghost for the first observed close frame. Every row and every script is replayed into the real code: Upgrader.Upgrade directly and the centrifuge WebsocketHandler behind a real HTTP server, real close frames into server and client connections, the real transport Close, Conn.CloseCode() after every step.',
+                note='Bounds: see coverage.rule. Expected statuses other than accept/refuse-with-4xx are compared as drift only. Trusted: TLC, lib/tlaparse.py, harness request rendering and comparison, crypto/sha1 for the independent accept key.',
+                technique='TLA+ decision tables + TLC enumeration, function-table replay; small state machine + script replay',
+                design_ref='DESIGN.md 4.4, 8 (C31)'),
+}
